@@ -93,6 +93,7 @@ static void install_db(void)
 	cJSON_AddItemToObject(us, "uc", mkuser("Hpc", "g1", 0, 0, 0));         /* "uc" may call g1 methods */
 	cJSON_AddItemToObject(cJSON_GetObjectItem(cJSON_GetObjectItem(us, "uc"), "auth"), "callGroups", strarr1("g1"));
 	cJSON_AddItemToObject(us, "us", mkuser("Hps", "g1", "g1", 0, 0));      /* "us" may fetch and SET g1 elements - but not call */
+	cJSON_AddItemToObject(us, "uo", mkuser("Hpo", 0, "g1", 0, 0));         /* "uo" may SET g1 elements but is in no fetch group */
 	cJSON_AddItemToObject(db, "users", us);
 	user_data = db; users = us; password_file = 5;
 	cJSON *g = cJSON_CreateArray(); cJSON_AddItemToArray(g, cJSON_CreateString("g1")); cJSON_AddItemToArray(g, cJSON_CreateString("g2")); cJSON_AddItemToArray(g, cJSON_CreateString("g"));
@@ -187,6 +188,10 @@ void harness_visibility(void)
 	__CPROVER_assume(login(&P1, "u2", "p2"));      /* g2 only: may neither see nor set */
 #elif VISCASE == 3
 	__CPROVER_assume(login(&P1, "u3", "p3"));      /* group "g" only, a different group whose name is a prefix of "g1" */
+#elif VISCASE == 4
+	__CPROVER_assume(login(&P1, "uc", "pc"));      /* fetch group g1 but no set group: may see, may not set */
+#elif VISCASE == 5
+	__CPROVER_assume(login(&P1, "uo", "po"));      /* set group g1 but no fetch group: may set, never sees */
 #else
 	/* P1 never authenticates */
 #endif
@@ -214,16 +219,16 @@ void harness_visibility(void)
 	CHECK(dispatch(&P1, get) >= 0, "C08.get_keeps_connection");
 	struct sent *gr = last_of(&P1, K_RESPONSE);
 	CHECK(gr && gr->has_result, "C08.get_answered");
-#if VISCASE == 0
+#if VISCASE == 0 || VISCASE == 4
 	CHECK(gr && gr->result_items == 1, "C08.get_lists_elements_of_the_peers_groups");
+	CHECK(saw_add == 1, "C08.member_of_fetch_group_sees_element");
 #else
 	CHECK(gr && gr->result_items == 0, "C08.get_hides_elements_of_other_groups");
+	CHECK(saw_add == 0, "C08.non_member_never_sees_element");
 #endif
-#if VISCASE == 0
-	CHECK(saw_add == 1, "C08.member_of_fetch_group_sees_element");
+#if VISCASE == 0 || VISCASE == 5
 	CHECK(routed == 1 && !set_answered, "C08.member_of_set_group_may_set");
 #else
-	CHECK(saw_add == 0, "C08.non_member_never_sees_element");
 	CHECK(routed == 0 && set_refused, "C08.non_member_may_not_set");
 #endif
 	WITNESS_END();
